@@ -230,7 +230,7 @@ def cases(tier):
     out = []
     dts = [1, 0.5, 0.25, 0.2, 0.125, 0.1]
     pops = [[], ["a"], ["a", "b"], ["b", "a", "a"], ["a", "a", "b"]]
-    starts = [0, 1, 2]
+    starts = [-2, -1, 0, 1, 2]     # negative and zero stop times: the progress fraction time/stoptime is no guide there
     for start in starts:
         for span in (0, 1, 2):
             stop = start + span
@@ -292,7 +292,7 @@ def run(ctx):
         "states": len(cs), "transitions": sum(len(expected(c[1], c[2], c[3], c[4], c[5], c[6])) for c in cs),
         "traces_validated_against_impl": len(cs),
         "samples": [list(c) for c in cs[:3]] + [list(cs[len(cs) // 2])],
-        "rule": "complete lattice start in 0..2 x stop-start in 0..2 x dt in 1,.5,.25,.2,.125,.1 x 5 populations x collect_data x drivers "
+        "rule": "complete lattice start in -2..2 x stop-start in 0..2 x dt in 1,.5,.25,.2,.125,.1 x 5 populations x collect_data x drivers "
                 "(Model.run with constructor / run_specs run specs, Model.run_step sequences, hybrid run through bptk.run_scenarios), plus "
                 "callback scripts creating/deleting an agent at the first/last step of the first/last round, agents deleting themselves or an "
                 "earlier agent from inside act(), and a sweep over every dt = 1/n (n <= 128, thorough 256); states = runs, "
